@@ -48,6 +48,9 @@ func CreateInMemory(parse parser.Parser) (*InMemory, error) {
 }
 
 func createInMemory(cursor *InMemory, parse parser.Parser, pos int) error {
+	// Whether cursor already has its own nodes for the namespaces of its parent.
+	inherited := true
+
 	for {
 		n, isEnd, err := parse.Pull()
 
@@ -57,6 +60,13 @@ func createInMemory(cursor *InMemory, parse parser.Parser, pos int) error {
 
 		if err != nil {
 			return err
+		}
+
+		// The namespace declarations of an element come first.  Once they are
+		// read, the element gets the namespaces of its parent it did not override.
+		if _, isNamespace := n.(node.Namespace); !inherited && !isNamespace {
+			pos = inheritNamespaces(cursor, pos)
+			inherited = true
 		}
 
 		if isEnd {
@@ -72,10 +82,10 @@ func createInMemory(cursor *InMemory, parse parser.Parser, pos int) error {
 			cursor.attributes = append(cursor.attributes, createNonElement(v, cursor, pos))
 		case node.Element:
 			pos++
-			next, nextPos := createElement(v, cursor, pos)
+			next := createElement(v, cursor, pos)
 			cursor.nodes = append(cursor.nodes, next)
 			cursor = next
-			pos = nextPos
+			inherited = false
 		default:
 			pos++
 			cursor.nodes = append(cursor.nodes, createNonElement(v, cursor, pos))
@@ -84,35 +94,53 @@ func createInMemory(cursor *InMemory, parse parser.Parser, pos int) error {
 }
 
 func addNamespace(ns node.Namespace, cursor *InMemory, pos int) int {
-	toReplace := -1
-
-	for pos, i := range cursor.namespaces {
-		nsTest := i.(*InMemory).node.(node.Namespace)
-
-		if nsTest.Prefix() == ns.Prefix() {
-			toReplace = pos
-			break
+	for i, declared := range cursor.namespaces {
+		if declared.Node().(node.Namespace).Prefix() == ns.Prefix() {
+			cursor.namespaces[i] = createNonElement(ns, cursor, declared.Pos())
+			return pos
 		}
 	}
 
-	// An empty namespace name (xmlns="") removes the binding instead of creating one.
-	if ns.NamespaceValue() == "" {
-		if toReplace >= 0 {
-			cursor.namespaces = append(cursor.namespaces[:toReplace:toReplace], cursor.namespaces[toReplace+1:]...)
-		}
-
-		return pos
-	}
-
-	if toReplace < 0 {
-		pos++
-		cursor.namespaces = append(cursor.namespaces, createNonElement(ns, cursor, pos))
-		return pos
-	}
-
-	nsPos := cursor.namespaces[toReplace].(*InMemory).pos
-	cursor.namespaces[toReplace] = createNonElement(ns, cursor, nsPos)
+	pos++
+	cursor.namespaces = append(cursor.namespaces, createNonElement(ns, cursor, pos))
 	return pos
+}
+
+// Gives an element its own nodes for the namespaces of its parent that it did not
+// declare itself, and removes the declarations with an empty namespace name
+// (xmlns=""), which only take a namespace out of scope.
+func inheritNamespaces(elem *InMemory, pos int) int {
+	declared := elem.namespaces
+	elem.namespaces = make([]Cursor, 0, len(declared)+len(elem.parent.namespaces))
+
+	for _, i := range declared {
+		if i.Node().(node.Namespace).NamespaceValue() != "" {
+			elem.namespaces = append(elem.namespaces, i)
+		}
+	}
+
+	for _, i := range elem.parent.namespaces {
+		ns := i.Node().(node.Namespace)
+
+		if declaresPrefix(declared, ns.Prefix()) {
+			continue
+		}
+
+		pos++
+		elem.namespaces = append(elem.namespaces, createNonElement(ns, elem, pos))
+	}
+
+	return pos
+}
+
+func declaresPrefix(namespaces []Cursor, prefix string) bool {
+	for _, i := range namespaces {
+		if i.Node().(node.Namespace).Prefix() == prefix {
+			return true
+		}
+	}
+
+	return false
 }
 
 func createNonElement(node node.Node, parent *InMemory, pos int) *InMemory {
@@ -124,23 +152,13 @@ func createNonElement(node node.Node, parent *InMemory, pos int) *InMemory {
 	return &next
 }
 
-func createElement(node node.Node, parent *InMemory, pos int) (*InMemory, int) {
+func createElement(node node.Node, parent *InMemory, pos int) *InMemory {
 	next := initElement()
 	next.node = node
 	next.pos = pos
 	next.parent = parent
 
-	ns := make([]Cursor, len(parent.namespaces))
-	copy(ns, parent.namespaces)
-
-	next.namespaces = ns
-
-	for _, i := range next.namespaces {
-		pos++
-		i.(*InMemory).pos = pos
-	}
-
-	return &next, pos + len(next.namespaces)
+	return &next
 }
 
 func (c *InMemory) Pos() int {
